@@ -700,6 +700,13 @@ func (g *Gen) loopModified(li *loopInfo) (map[string][]ssa.Value, bool) {
 				if _, isDefer := in.(*ssa.Defer); isDefer {
 					continue
 				}
+				if f, ok := x.Common().Value.(*ssa.Function); ok && strings.HasPrefix(funcKey(f), "atomic.") && len(x.Common().Args) > 0 {
+					if _, isPtr := x.Common().Args[0].Type().Underlying().(*types.Pointer); isPtr {
+						// sync/atomic on a cell: a plain write to that cell
+						addrHeaps(x.Common().Args[0], nil)
+						continue
+					}
+				}
 				hs, a := g.callModifies(x.Common())
 				if a {
 					all = true
@@ -921,6 +928,14 @@ func (g *Gen) locHeaps(key string, le Expr) []string {
 			hs = append(hs, g.arrHeap(types.Typ[types.Uint8]))
 			return hs
 		case "entries":
+			if len(x.Args) == 1 {
+				if t := g.staticType(key, x.Args[0]); t != nil {
+					if mt, ok := t.Underlying().(*types.Map); ok {
+						dom, val := g.mapHeaps(mt)
+						return []string{dom, val}
+					}
+				}
+			}
 			var hs []string
 			for h := range g.heapSort {
 				if strings.HasPrefix(h, "Mdom.") || strings.HasPrefix(h, "Mval.") {
@@ -930,6 +945,9 @@ func (g *Gen) locHeaps(key string, le Expr) []string {
 			return hs
 		case "all":
 			if f, ok := x.Args[0].(*EField); ok {
+				if h, ok := g.allFieldHeap(f); ok {
+					return []string{h}
+				}
 				return g.E.fieldHeapsNamed(g, f.Name)
 			}
 		case "fields":
@@ -1218,14 +1236,8 @@ func (g *Gen) locOf(env *Env, le Expr) (heaps []string, idx string, whole bool, 
 			return []string{dom, val}, v.S, false, nil
 		case "all":
 			if f, ok := x.Args[0].(*EField); ok {
-				if id, ok := f.X.(*EIdent); ok {
-					t, _ := g.specType(id.Name)
-					if t != nil {
-						obj, path, _ := types.LookupFieldOrMethod(t, true, g.fn.Pkg.Pkg, f.Name)
-						if obj != nil && len(path) == 1 {
-							return []string{g.fieldHeap(t, path[0])}, "", true, nil
-						}
-					}
+				if h, ok := g.allFieldHeap(f); ok {
+					return []string{h}, "", true, nil
 				}
 			}
 		}
